@@ -1,16 +1,123 @@
-// Package simnetlink is a drop-in for github.com/vishvananda/netlink in pkg/gc: the simulated node has no
-// host veth devices, so the veth collector sees an empty link list. Only what pkg/gc uses is provided.
+// Package simnetlink is a drop-in for github.com/vishvananda/netlink in pkg/gc: the host's network devices are
+// a table of the simulated node (scheduler side: Links), listed and deleted through environment calls. Only what
+// pkg/gc uses is provided.
 package simnetlink
 
-import "github.com/vishvananda/netlink"
+import (
+	"fmt"
+	"sort"
+	"strings"
+	"syscall"
+
+	"github.com/vishvananda/netlink"
+	"tkestack.io/galaxy/verifsim/core"
+)
 
 type (
 	Link      = netlink.Link
 	LinkAttrs = netlink.LinkAttrs
 )
 
-// LinkList returns the (empty) list of links of the simulated node.
-func LinkList() ([]Link, error) { return nil, nil }
+// LinkList returns the links of the simulated node, sorted by name (the kernel lists them by index; the order of
+// creation is not something pkg/gc depends on).
+func LinkList() ([]Link, error) {
+	if !core.InTask() {
+		return nil, nil
+	}
+	r := core.Call(core.Req{Op: "nl.linklist"})
+	if r.Code != 0 {
+		return nil, syscall.Errno(r.Code)
+	}
+	var out []Link
+	for i := 0; i+2 <= len(r.A); i += 2 {
+		out = append(out, &netlink.GenericLink{LinkAttrs: netlink.LinkAttrs{Name: r.A[i], Index: 10 + i/2}, LinkType: r.A[i+1]})
+	}
+	return out, nil
+}
 
-// LinkDel deletes a link; there is none.
-func LinkDel(link Link) error { return nil }
+// LinkDel deletes a link of the simulated node.
+func LinkDel(link Link) error {
+	if !core.InTask() {
+		return nil
+	}
+	r := core.Call(core.Req{Op: "nl.linkdel", A: []string{link.Attrs().Name}})
+	if r.Code != 0 {
+		if r.Code == core.CodeDead {
+			return syscall.EINTR
+		}
+		return syscall.Errno(r.Code)
+	}
+	return nil
+}
+
+// ---- scheduler side -------------------------------------------------------------------------------------------
+
+// Links is the node's table of network devices: name -> type ("veth", "bridge", ...). Owned by the world.
+type Links struct {
+	dev map[string]string
+	// FaultHook, if set, is asked before a deletion by a task; a non-zero errno fails it.
+	FaultHook func(t *core.Task, name string) int
+	// ListFault, if set, is asked before a listing by a task; a non-zero errno fails it.
+	ListFault func(t *core.Task) int
+	// OnDelete observes a deletion by a task before it is applied.
+	OnDelete func(t *core.Task, name, typ string)
+}
+
+// NewLinks returns an empty table.
+func NewLinks() *Links { return &Links{dev: map[string]string{}} }
+
+// Add creates a device.
+func (l *Links) Add(name, typ string) { l.dev[name] = typ }
+
+// Remove deletes a device (environment side, e.g. the plugin's DEL).
+func (l *Links) Remove(name string) { delete(l.dev, name) }
+
+// Names returns the device names, sorted.
+func (l *Links) Names() []string {
+	out := make([]string, 0, len(l.dev))
+	for n := range l.dev {
+		out = append(out, n)
+	}
+	sort.Strings(out)
+	return out
+}
+
+// Type returns the type of a device ("" = no such device).
+func (l *Links) Type(name string) string { return l.dev[name] }
+
+// IsLinkOp reports whether op belongs to this package.
+func IsLinkOp(op string) bool { return strings.HasPrefix(op, "nl.") }
+
+// Handle serves nl.linklist and nl.linkdel.
+func (l *Links) Handle(t *core.Task, r *core.Req) core.Resp {
+	switch r.Op {
+	case "nl.linklist":
+		if l.ListFault != nil {
+			if e := l.ListFault(t); e != 0 {
+				return core.Resp{Code: e}
+			}
+		}
+		var out []string
+		for _, n := range l.Names() {
+			out = append(out, n, l.dev[n])
+		}
+		return core.Resp{A: out}
+	case "nl.linkdel":
+		name := r.A[0]
+		typ, ok := l.dev[name]
+		if !ok {
+			return core.Resp{Code: int(syscall.ENODEV)}
+		}
+		if l.FaultHook != nil {
+			if e := l.FaultHook(t, name); e != 0 {
+				return core.Resp{Code: e}
+			}
+		}
+		if l.OnDelete != nil {
+			l.OnDelete(t, name, typ)
+		}
+		delete(l.dev, name)
+		return core.Resp{}
+	}
+	return core.Resp{Code: int(syscall.EINVAL), Msg: fmt.Sprintf("simnetlink: unknown op %s", r.Op)}
+}
